@@ -40,15 +40,96 @@ fn c03_clock() -> BoxedStrategy<Clock> {
     .boxed()
 }
 
+/// seed value that marks a case whose clock values are nanoseconds fed through std::time::Duration
+pub const STD_MARK: u64 = 0xC03D_0000_5D00_0001;
+
+/// The same budgets with the crate's own `std::time::Duration` arithmetic: clock values are
+/// nanoseconds; the share is judged exactly on the nanosecond integers, with a relative margin of
+/// 1e-9 for the two float conversions `as_secs_f64` performs (so only a clear excess is reported).
+fn check_std(case: &FwCase, obs: &mut Obs) -> Result<(), Failure> {
+    use crate::vtime::NInstant;
+    use maybenot::{Framework, TriggerAction};
+    let machines = build_machines(&case.machines)
+        .unwrap_or_else(|e| panic!("generator produced a machine that Machine::new rejects: {e}"));
+    let mut rng = crate::rng::ScriptRng::new(&case.words, case.seed);
+    rng.budget = Some(50_000_000);
+    let mut fw = Framework::new(machines, case.max_padding_frac.0, case.max_blocking_frac.0, NInstant(case.start), rng)
+        .map_err(|e| Failure { signature: "framework-new-rejects-validated-machines".into(), detail: e.to_string() })?;
+    let gfrac = case.max_blocking_frac.0;
+    let start = case.start;
+    let mut now = case.start;
+    let mut open: Option<u64> = None;
+    let mut closed_total: u128 = 0;
+    for (ci, c) in case.calls.iter().enumerate() {
+        now = c.clock.apply(now);
+        match c.events[0] {
+            Ev::BlockingBegin(_) => {
+                if open.is_none() {
+                    open = Some(now);
+                }
+            }
+            Ev::BlockingEnd => {
+                if let Some(t0) = open.take() {
+                    closed_total += now.saturating_sub(t0) as u128;
+                }
+            }
+            _ => {}
+        }
+        let blocked: u128 = closed_total + open.map(|t0| now.saturating_sub(t0) as u128).unwrap_or(0);
+        let elapsed: u128 = now.saturating_sub(start) as u128;
+        let evs = [c.events[0].to_trigger()];
+        let acts: Vec<(usize, bool)> = fw
+            .trigger_events(&evs, NInstant(now))
+            .filter_map(|a| match a {
+                TriggerAction::BlockOutgoing { machine, replace, .. } => Some((machine.into_raw(), *replace)),
+                _ => None,
+            })
+            .collect();
+        for (m, replace) in acts {
+            obs.hit("std_duration_blocking_returned");
+            let spec = &case.machines[m];
+            if replace && open.is_some() {
+                continue;
+            }
+            if blocked < spec.allowed_blocked_microsec as u128 * 1000 {
+                continue;
+            }
+            let mfrac = spec.max_blocking_frac.0;
+            // clearly not below: share >= f * (1 + 1e-9)
+            let over = |f: f64| frac_set(f) && elapsed > 0 && !ratio_below(blocked, elapsed, f * (1.0 + 1e-9));
+            let over_zero = |f: f64| frac_set(f) && elapsed == 0 && blocked > 0;
+            if frac_set(mfrac) || frac_set(gfrac) {
+                obs.hit("std_duration_decided_by_fraction");
+                if elapsed < 100_000 {
+                    obs.hit("std_duration_sub_100us_since_start");
+                    obs.nontrivial();
+                }
+            }
+            for (which, f) in [("machine", mfrac), ("framework", gfrac)] {
+                if over(f) || over_zero(f) {
+                    return fail(
+                        format!("blocking-over-{which}-fraction (std::time::Duration)"),
+                        format!(
+                            "call {ci} ({:?}, now {now} ns): BlockOutgoing for machine {m} (replace {replace}, block open {}) with blocked {blocked} ns (allowed {} us), elapsed {elapsed} ns: share is not below {which} frac {f}",
+                            c.events[0], open.is_some(), spec.allowed_blocked_microsec
+                        ),
+                    );
+                }
+            }
+        }
+    }
+    Ok(())
+}
+
 impl Prop for C03 {
     type Case = FwCase;
     const ID: &'static str = "C03";
-    const RULE: &'static str = "case = 1..=4 machines whose states mostly carry BlockOutgoing (all four bypass/replace combinations; allowed_blocked_microsec from {0,1,small,huge}; fractions dyadic/random/subnormal) x framework blocking fraction x history of <=200 single-event calls with arbitrary (unpaired, repeated, unknown-id) BlockingBegin/BlockingEnd placement x virtual clock steps {0,1,small,large,huge,backwards,before start} (all values < 2^50 so no duration type saturates). Non-trivial: a blocking state entered while the recomputed blocked time is at or over the machine's microsecond budget with a machine or framework fraction set. Distinct = hash of the case.";
+    const RULE: &'static str = "case = 1..=4 machines whose states mostly carry BlockOutgoing (all four bypass/replace combinations; allowed_blocked_microsec from {0,1,small,huge}; fractions dyadic/random/subnormal) x framework blocking fraction x history of <=200 single-event calls with arbitrary (unpaired, repeated, unknown-id) BlockingBegin/BlockingEnd placement x virtual clock steps {0,1,small,large,huge,backwards,before start} (all values < 2^50 so no duration type saturates); profile std_ns: the same through std::time::Duration with nanosecond clock values and steps of 0..3000 ns / 3 us..3 ms / backwards. Non-trivial: a blocking state entered while the recomputed blocked time is at or over the machine's microsecond budget with a machine or framework fraction set. Distinct = hash of the case.";
 
     fn profiles(tier: Tier) -> Vec<Profile> {
         match tier {
-            Tier::Quick => vec![prof("block", 120_000), prof("dyadic", 60_000)],
-            Tier::Thorough => vec![prof("block", 1_600_000), prof("dyadic", 800_000)],
+            Tier::Quick => vec![prof("block", 120_000), prof("dyadic", 60_000), prof("std_ns", 60_000)],
+            Tier::Thorough => vec![prof("block", 1_600_000), prof("dyadic", 800_000), prof("std_ns", 800_000)],
         }
     }
 
@@ -73,9 +154,22 @@ impl Prop for C03 {
             ..HistParams::default()
         };
         let dyadic = profile == "dyadic";
+        let std_ns = profile == "std_ns";
         (1usize..=4)
             .prop_flat_map(move |n| {
-                let call = (c03_clock(), event(n, &hp)).prop_map(|(clock, e)| Call { clock, events: vec![e] });
+                // std_ns: the values are nanoseconds; small steps so that microsecond truncation would matter
+                let clock = if std_ns {
+                    prop_oneof![
+                        2 => Just(Clock::Add(0)),
+                        8 => (1u64..3000).prop_map(Clock::Add),
+                        3 => (3000u64..3_000_000).prop_map(Clock::Add),
+                        1 => (1u64..2000).prop_map(Clock::Sub),
+                    ]
+                    .boxed()
+                } else {
+                    c03_clock()
+                };
+                let call = (clock, event(n, &hp)).prop_map(|(clock, e)| Call { clock, events: vec![e] });
                 (
                     proptest::collection::vec(machine(&mp), n..=n),
                     prop_oneof![Just(0.0), select(vec![0.25, 0.5, 0.75, 1.0, 0.125]), 0.0f64..=1.0],
@@ -96,13 +190,19 @@ impl Prop for C03 {
                         m.allowed_blocked_microsec = m.allowed_blocked_microsec.min(2);
                     }
                 }
+                if std_ns {
+                    // tiny microsecond budgets, so that the fractions decide
+                    for m in machines.iter_mut() {
+                        m.allowed_blocked_microsec = m.allowed_blocked_microsec.min(1);
+                    }
+                }
                 FwCase {
                     machines,
                     max_padding_frac: Fx(0.0),
                     max_blocking_frac: Fx(bf),
                     start,
                     words,
-                    seed,
+                    seed: if std_ns { STD_MARK } else { seed },
                     calls,
                 }
             })
@@ -110,6 +210,9 @@ impl Prop for C03 {
     }
 
     fn check(case: &FwCase, obs: &mut Obs) -> Result<(), Failure> {
+        if case.seed == STD_MARK {
+            return check_std(case, obs);
+        }
         let machines = build_machines(&case.machines)
             .unwrap_or_else(|e| panic!("generator produced a machine that Machine::new rejects: {e}"));
         let n = machines.len();
@@ -218,6 +321,8 @@ impl Prop for C03 {
             "within_microsecond_budget",
             "backwards_step_while_block_open",
             "at_or_next_to_equality",
+            "std_duration_decided_by_fraction",
+            "std_duration_sub_100us_since_start",
         ]
     }
 
@@ -226,6 +331,7 @@ impl Prop for C03 {
             "virtual clock in whole microseconds with values < 2^50, so blocked/elapsed times convert to f64 exactly and the framework's one division is the only rounding; it can only err towards denying, so the exact oracle cannot raise a false alarm",
             "every machine starts with the framework, so the machine's and the framework's blocked time coincide (blocking is global)",
             "a fraction limit is 'set' when it is > 0",
+            "profile std_ns: a nanosecond virtual clock whose duration type is std::time::Duration (the crate's own Duration implementation); its as_secs_f64 conversions round twice, so only a share >= limit * (1 + 1e-9) is reported",
         ]
     }
 
